@@ -15,6 +15,7 @@ import math
 
 from sexp import Sym
 from props._graph_terms import FUNCS, build, gen_legacy_graph, has_ref_or_call, jsexp, node_sexp, to_sexp
+from props._c09x_inline import case_inl, gen_inl
 
 PROP = "C09"
 READY = True
@@ -839,7 +840,7 @@ def case_rename(ctx, inp):
 
 
 CASES = {"opt": case_opt, "fn": case_fn, "spec": case_spec, "specfn": case_specfn, "shape": case_shape,
-         "rename": case_rename}
+         "rename": case_rename, "inl": case_inl}
 
 
 
@@ -931,6 +932,8 @@ def generate(ctx):
                 inp["grid"] = [[aw, mw, mh, md] for aw in (1, 2, 3, "inf") for mw in (None, 1, 2, 3)
                                for mh in ("inf", 1, 2, 5) for md in (None, 0, 1, 3) if rng.random() < 0.15]
             yield "opt", inp
+    # extension round: legacy inline / inline_functions against their Lean transliterations (function level)
+    yield from gen_inl(ctx, rng, ctx.n(150))
     for _ in range(ctx.n(300)):
         n = rng.randint(1, 6)
         g = gen_legacy_graph(rng, n, rng.choice([(), ("dictref",), ("tupleref",), ("dictref", "tupleref")]), depth=3)
